@@ -63,14 +63,15 @@ var errEOFReadHeader = errs.NewPublic("error when reading request headers: EOF")
 func WriteHeader(h *protocol.RequestHeader, w network.Writer) error {
 	header := h.Header()
 	// header is the scratch buffer of h, which the next Set or Header call overwrites,
-	// and the body stream is read before the flush: copy it instead of handing it over
-	// by reference
-	buf, err := w.Malloc(len(header))
-	if err != nil {
-		return err
+	// and the body is produced by the application before the flush. WriteBinary copies
+	// small buffers but keeps those of 4 KiB and more by reference: hand it a private
+	// copy of a large head. (Not Malloc: a reservation of more than 8 KiB leaves a tail
+	// node that ReadFrom cannot reuse, which truncates a body stream sent after it.)
+	if len(header) >= 4096 {
+		header = append(make([]byte, 0, len(header)), header...)
 	}
-	copy(buf, header)
-	return nil
+	_, err := w.WriteBinary(header)
+	return err
 }
 
 func ReadHeader(h *protocol.RequestHeader, r network.Reader) error {
